@@ -100,17 +100,22 @@ pub struct EnvCase {
     pub near_miss: String,
     /// marker text embedded in a 77T value (MT103 only), "" = none
     pub marker: String,
+    /// what stands between two blocks: "", "\n" (as the library writes) or "\r\n"
+    #[serde(default)]
+    pub sep: String,
 }
 
 impl EnvCase {
     pub fn text(&self) -> String {
-        let mut s = format!("{{1:{}}}{{2:{}}}", self.b1, self.b2);
+        let sep = self.sep.as_str();
+        let mut s = format!("{{1:{}}}{sep}{{2:{}}}{sep}", self.b1, self.b2);
         if let Some(t) = &self.b3 {
             s.push_str("{3:");
             for (k, v) in t {
                 s.push_str(&format!("{{{k}:{v}}}"));
             }
             s.push('}');
+            s.push_str(sep);
         }
         s.push_str("{4:\n");
         s.push_str(&self.body);
@@ -119,6 +124,7 @@ impl EnvCase {
         }
         s.push_str("-}");
         if let Some(t) = &self.b5 {
+            s.push_str(sep);
             s.push_str("{5:");
             for (k, v) in t {
                 if v.is_empty() && (k == "TNG" || k == "DLM") {
@@ -255,18 +261,19 @@ pub fn gen_b3_value(tag: &str, src: &mut Src) -> String {
         "165" => format!("{}/{}", upper(src, 3), format!("PRI{}", xtext(src, 1, 30))),
         "433" => {
             let c = src.pick(&["AOK", "FPO", "NOK"]).to_string();
-            if src.flip() {
-                format!("{c}/SAN{}", xtext(src, 1, 16))
-            } else {
-                c
+            match src.below(3) {
+                0 => format!("{c}/SAN{}", xtext(src, 1, 16)),
+                // documented as 3!a/[20x]: the slash with nothing after it
+                1 => format!("{c}/"),
+                _ => c,
             }
         }
         "434" => {
             let c = upper(src, 3);
-            if src.flip() {
-                format!("{c}/PCI{}", xtext(src, 1, 16))
-            } else {
-                c
+            match src.below(3) {
+                0 => format!("{c}/PCI{}", xtext(src, 1, 16)),
+                1 => format!("{c}/"),
+                _ => c,
             }
         }
         _ => unreachable!(),
@@ -357,6 +364,7 @@ pub fn gen_env(mt: &str, src: &mut Src) -> EnvCase {
         body: minimal_body(mt),
         near_miss: String::new(),
         marker: String::new(),
+        sep: src.pick(&["", "", "\n", "\r\n"]).to_string(),
     };
     match src.below(10) {
         0 => {
@@ -788,7 +796,7 @@ pub fn hdr_oracle(c: &HdrCase, obs: &mut Obs) -> Vec<Violation> {
 }
 
 pub fn run(ctx: &Ctx) {
-    ctx.add_rule("envelopes built from the documented header components: block 1 (app id, service id, 12-char LT, session, sequence), block 2 input (17/18/21 chars) and output (46/47), any subset/rotation of the 13 documented block-3 tags and 8 block-5 tags, blocks 3/5 present or absent, around a minimal valid body of each of the 30 types; near misses (block-1 length, I/O header lengths, direction letter); block markers embedded in a 77T value; plus direct Header::parse/Display pairs; non-trivial = has an optional component / tag / near miss; distinct by text");
+    ctx.add_rule("envelopes built from the documented header components: block 1 (app id, service id, 12-char LT, session, sequence), block 2 input (17/18/21 chars) and output (46/47), any subset/rotation of the 13 documented block-3 tags and 8 block-5 tags, blocks 3/5 present or absent, blocks written back to back or separated by LF or CRLF, around a minimal valid body of each of the 30 types; near misses (block-1 length, I/O header lengths, direction letter); block markers embedded in a 77T value; plus direct Header::parse/Display pairs; non-trivial = has an optional component / tag / near miss; distinct by text");
     ctx.assume("own sequential block splitter: blocks 1,2 end at the first `}`, 3 and 5 by brace matching, 4 at `-}`");
     ctx.assume("a block-3/5 tag counts as recognised when the parsed header's JSON holds its value (or its parts)");
     let to_json = |c: &EnvCase| serde_json::to_value(c).unwrap();
